@@ -5,7 +5,7 @@ import vp
 from checks import loadfam
 from checks.c05 import plural_oracle
 
-LOCS = ["en", "fr", "ru", "de"]
+LOCS = ["en", "fr", "ru", "de", "es"]
 COUNTS = ["0", "1", "2", "11", "1.5"]
 
 
